@@ -224,7 +224,7 @@ impl Property for C03P {
          decoded from a proptest byte stream, rendered by a renderer written from the YAML 1.2.2 productions under a second byte stream of \
          layout choices (indent width per level, same-line vs next-line placement, compact forms, explicit vs implicit keys, sequence at the \
          key's indentation, flow single-pair / empty-key / empty-value / trailing comma / multi-line flow with legal continuation indent, \
-         property order, properties on their own line, comments and blank lines where the grammar has s-l-comments, 1..3 separation spaces). \
+         property order, properties on their own line, a line break between properties and content inside flow collections, a tab as separation after document markers, comments and blank lines where the grammar has s-l-comments, 1..3 separation spaces). \
          Oracle: the expected event list is a function of the tree alone (kind, scalar text, style, anchor link, resolved tag, explicit \
          document start; an omitted node may be the plain scalar '~' or the empty plain scalar); StrInput and BufferedInput. Plus the 308 \
          non-error yaml-test-suite cases (without BOM) against their `tree:` in four variants (as is, comment line prepended, empty line \
